@@ -850,7 +850,7 @@ def run_thorough(chk) -> None:
 MANIFEST_ENTRY = {
     "text": "A rigid-motion invariance type system (Point/Vector/component/Invariant/Identity kinds) is run over every expression of the functions on the annotation path of the current source: "
     "a well-typed path cannot produce a decision that depends on the frame, for every rotation and translation at once - which a finite sample of motions cannot give. Atom-order independence: atoms are fetched by name, "
-    "positional access only reads residue-constant fields. Renaming: residue numbers are only compared/hashed/printed; three named arithmetic uses (two under find_gaps, one mmCIF index). Same-residue test by full identity.",
+    "positional access only reads residue-constant fields. Renaming: residue numbers are only compared/hashed/printed; three named arithmetic uses (two under find_gaps, one mmCIF index). Same-residue test by full identity. Since rounds 3-7 also: the visit order of the neighbour pairs and everything computed after it (contact-visit-order), positional binding of atoms from order-keeping sequences (positional-atom), partial identity keys (identity-partial-key), agreement of the decoded atom names between the PDB and the mmCIF reader per class of the name language (format-same-atoms).",
     "note": "Trusted: equivariance model of numpy/scipy primitives; proper rotations. Not decided: float round-off under motion, CPython set order of KD-tree pairs feeding the greedy choices (recorded residual), entity-sequence naming differences between formats.",
-    "technique": "static analysis: abstract interpretation with rigid-motion invariance kinds (interprocedural over actual argument kinds) + call-graph-scoped syntactic rules",
+    "technique": "static analysis: abstract interpretation with rigid-motion invariance kinds (interprocedural over actual argument kinds) + call-graph-scoped syntactic rules + order/identity dataflow rules (visit order, positional binding, partial identity keys) and sibling agreement of the two readers' decoded names",
 }
